@@ -15,18 +15,18 @@ CONSTANTS
   cb = cb
   bad = bad
   unk = unk
-  Threads = {t1, t2}
+  Threads = {t1}
   Main = t1
   Opts = {o1, o2}
   Vals = {v0, v1}
   Cells = {c0, c1, cb}
-  Mutable = {c1}
+  Mutable = {}
   Heap0 <- Heap2
   Default <- Def2
   Bad = bad
   Unknown = unk
-  MaxNest <- NestTH
-  MaxMap = 1
+  MaxNest <- NestA
+  MaxMap = 2
 VIEW View
 INVARIANT TypeOK
 INVARIANT HeapUntouched
